@@ -17,7 +17,7 @@ def parseOptSpec (t : String) : Option OptSpec :=
     pure { name := name, alias := alias, implicit := has 'i' || has 'f', flag := has 'f', negatable := has 'n', composing := has 'c',
            implVal := opt 0, dflt := opt 1, arg := opt 2, desc := (opt 3).getD [],
            level := ((rest[4]?).bind String.toNat?).getD 0, group := ((rest[5]?).bind String.toNat?).getD 0,
-           kind := ((rest[6]?).bind String.toNat?).getD 0 }
+           kind := ((rest[6]?).bind String.toNat?).getD 0, glevel := ((rest[7]?).bind String.toNat?).getD 0 }
   | _ => none
 
 def showErr : Err → String
